@@ -32,12 +32,16 @@ os.makedirs(WORK, exist_ok=True)
 
 # ----------------------------------------------------------------------------- history generators
 FUNC_NAMES, DATA_NAMES = ["f", "g", "h"], ["d", "e"]
+# non-function definitions: V data | W data+data | X data+bss+data | B bss | A bss+data | Q ref | T ref+data |
+# Z expr | Y expr+bss+data  (single item or head of a multi-item section; the model sees `.data`)
+DATA_KINDS = "VWXBAQTZY"
 
 ALPHABET = [
     ["load {i} Ef Df Ed Vd"],          # exports function f and data d
     ["load {i} Cf Rd"],                # imports f (immediate call) and d (data reference)
     ["load {i} Pf"],                   # imports f (call through a register)
     ["load {i} Ff Ef Df Cg"],          # forward + export + definition of f, imports g
+    ["load {i} Ed Xd"],                # exports d as the head of a three-item section (data+bss+data)
     ["load {i} Cf Df"],                # malformed: import and definition of the same name
     ["ext f 1"], ["ext d 2"], ["redef 1"],
     ["link interp -", "call"], ["link interp -"], ["link gen -", "call"],
@@ -74,8 +78,10 @@ def rand_module(rng, ident):
     for n in DATA_NAMES:
         r = rng.below(100)
         if r < 40: continue
-        elif r < 65: decls += [["E" + n, "V" + n], ["V" + n, "E" + n]][rng.below(2)]
-        elif r < 70: decls += ["V" + n]
+        elif r < 65:
+            k = DATA_KINDS[rng.below(len(DATA_KINDS))]
+            decls += [["E" + n, k + n], [k + n, "E" + n]][rng.below(2)]
+        elif r < 70: decls += [DATA_KINDS[rng.below(len(DATA_KINDS))] + n]
         elif r < 95: decls += ["R" + n]
         elif r < 99: decls += ["E" + n]
         else: decls += [["R" + n, "V" + n], ["V" + n, "V" + n]][rng.below(2)]
@@ -288,7 +294,7 @@ def history_stats(hist, impl):
             ds = t[2:]
             for d in ds: stats["decl_kinds"][d[0]] = stats["decl_kinds"].get(d[0], 0) + 1
             for d in ds:
-                if d[0] == "E" and any(x[1] == d[1] and x[0] in "DV" for x in ds):
+                if d[0] == "E" and any(x[1] == d[1] and x[0] in "D" + DATA_KINDS for x in ds):
                     defs[d[1]] = defs.get(d[1], 0) + 1
                 if d[0] in "CPR": pend_imports.append(d[1])
         elif t[0] == "ext":
